@@ -8,6 +8,8 @@ open Cb
 inductive Sx where | atom (s : String) | list (l : List Sx)
 deriving Inhabited
 
+instance : Inhabited Pipe := ⟨Pipe.src []⟩
+
 def sxTokens (s : String) : List String :=
   words ((s.replace "(" " ( ").replace ")" " ) ")
 
@@ -46,7 +48,11 @@ partial def toPipe : Sx → Option Pipe
       match sxInt b, sxInt s, toPipe p with | some b, some s, some p => some (Pipe.scan (scanLinP b) s p) | _, _, _ => none
   | .list [.atom "take", n, p] => match sxNat n, toPipe p with | some n, some p => some (Pipe.take n p) | _, _ => none
   | .list [.atom "skip", n, p] => match sxNat n, toPipe p with | some n, some p => some (Pipe.skip n p) | _, _ => none
-  | .list [.atom "concat", p, q] => match toPipe p, toPipe q with | some p, some q => some (Pipe.concat p q) | _, _ => none
+  | .list (.atom "concat" :: p :: q :: rest) =>
+      -- n-ary concat! denotes the same list function as right-nested binary concats
+      match (p :: q :: rest).mapM toPipe with
+      | some (p0 :: ps) => some ((p0 :: ps).dropLast.foldr Pipe.concat ((p0 :: ps).getLast!))
+      | _ => none
   | .list [.atom "flatmap", .atom "rep", k, p] =>
       match sxNat k, toPipe p with | some k, some p => some (Pipe.flatMap (fun a => Pipe.src (rangeFrom a k)) p) | _, _ => none
   | .list [.atom "flatmap", .atom "tri", k, p] =>
